@@ -495,6 +495,13 @@ func (c *lineCtx) step(w *world, a action) bool {
 		if len(a.args) > 1 {
 			w.tlim = int64(a.num(1))
 		}
+		if w.tlim == 0 { // one log in three lives at file indices around 1000
+			bases := []int{0, 0, 0, 0, 0, 0, 998, 999, 1000}
+			if err := w.seedBase(bases[w.rng.Intn(len(bases))]); err != nil {
+				rn.res.Mismatch("infra:open", err.Error(), c.detail(nil))
+				return false
+			}
+		}
 		if err := w.open(); err != nil {
 			rn.res.Mismatch("infra:open", err.Error(), c.detail(nil))
 			return false
